@@ -317,7 +317,8 @@ def run(chk):
                                       f"{exc['type']}: {exc['msg']}", exc)
                 continue
             emit(pre_, build.expand_mul(Expr(res2.sympy, **res2.assumptions)),
-                 f"itmd:factor:mixed-prefactor:{label}", what, tsyms)
+                 f"itmd:factor:mixed-prefactor:{label}:term{pos}x{fac}", what,
+                 tsyms)
     # (f) a long intermediate times a remainder with a contraction of its
     #     own whose summation index is named differently in every term
     m_, n_ = get_symbols("mn")
